@@ -286,6 +286,44 @@ M("c11-reverse-odd", "C11", "reverse stops one pair early",
   (AR, "    for (i = 0, j = count - 1; i < j; i++, j--) {\n        swap(", "    for (i = 0, j = count - 1; i + 1 < j; i++, j--) {\n        swap("))
 M("c11-swap-8-as-4", "C11", "cstl_swap moves only 4 bytes of 8-byte elements",
   ("include/cstl/common.h", "    case sizeof(uint64_t): EXCH(uint64_t, x, y, t); break;", "    case sizeof(uint64_t): EXCH(uint32_t, x, y, t); break;"))
+# ----------------------------------------------------------------- C15
+M("c15-dlist-cb-before-unlink", "C15", "dlist clear calls back before unlinking",
+  (DL, "    while (l->size > 0) {\n        clr(__cstl_dlist_erase(l, l->h.n), NULL);\n    }", "    while (l->size > 0) {\n        struct cstl_dlist_node * const n = l->h.n;\n        clr(__cstl_dlist_element(l, n), NULL);\n        __cstl_dlist_erase(l, n);\n    }"))
+M("c15-slist-next-after-cb", "C15", "slist clear reads next after the callback",
+  (SL, "        struct cstl_slist_node * const n = h->n;\n        clr(__cstl_slist_element(sl, h), NULL);\n        h = n;", "        clr(__cstl_slist_element(sl, h), NULL);\n        h = h->n;"))
+M("c15-tree-root-kept", "C15", "tree clear does not reset root",
+  (BT, "        bt->root  = NULL;\n        bt->size = 0;", "        bt->size = 0;"))
+M("c15-tree-cb-pre", "C15", "tree clear calls back on the PRE visit of non-leaves (children read afterwards are captured, but MID/POST revisit the freed node)",
+  (BT, "    if (order == CSTL_BINTREE_VISIT_ORDER_POST\n        || order == CSTL_BINTREE_VISIT_ORDER_LEAF) {", "    if (order == CSTL_BINTREE_VISIT_ORDER_PRE\n        || order == CSTL_BINTREE_VISIT_ORDER_POST\n        || order == CSTL_BINTREE_VISIT_ORDER_LEAF) {"))
+M("c15-slist-no-reinit", "C15", "slist clear does not re-initialise the list",
+  (SL, "        h = n;\n    }\n\n    cstl_slist_init(sl, sl->off);", "        h = n;\n    }\n\n    sl->count = 0;"))
+M("c15-map-free-first", "C15", "map clear frees the node before building the iterator for the callback",
+  (MP, "    if (cmc->clr != NULL) {\n        cstl_map_iterator_t i;\n\n        cstl_map_iterator_init(cmc->map, &i, node);", "    cstl_map_node_free(node);\n    if (cmc->clr != NULL) {\n        cstl_map_iterator_t i;\n\n        cstl_map_iterator_init(cmc->map, &i, node);"),
+  (MP, "        cmc->clr(&i, cmc->priv);\n    }\n\n    cstl_map_node_free(node);", "        cmc->clr(&i, cmc->priv);\n    }"))
+M("c15-heap-clear-skips-root", "C15", "heap/tree clear of a single-element container skips the callback",
+  (BT, "    if (bt->root != NULL) {\n        struct cstl_bintree_clear_priv bcp;", "    if (bt->root != NULL && bt->size > 1) {\n        struct cstl_bintree_clear_priv bcp;"))
+# ----------------------------------------------------------------- C16
+M("c16-map-link-before-check", "C16", "map insert links the node before checking the allocation",
+  (MP, "        node = cstl_map_node_alloc(key, val);\n        if (node != NULL) {\n            cstl_rbtree_insert(&map->t, node, p);\n            err = 0;\n        }", "        node = cstl_map_node_alloc(key, val);\n        cstl_rbtree_insert(&map->t, node, p);\n        if (node != NULL) {\n            err = 0;\n        }"))
+M("c16-string-reserve-abort", "C16", "string reserve aborts when the allocation fails",
+  ("include/cstl/_string.h", "    cstl_vector_reserve(&s->v, sz + 1);", "    cstl_vector_reserve(&s->v, sz + 1);\n    if (sz + 1 != 0 && cstl_vector_capacity(&s->v) < sz + 1 && sz < 100000) { abort(); }"))
+M("c16-unique-alloc-stale", "C16", "unique alloc keeps the callback of a failed allocation",
+  (MM, "        if (ptr != NULL) {\n            cstl_guarded_ptr_set(&up->gp, ptr);\n            up->clr.func = clr;\n            up->clr.priv = priv;\n        }", "        up->clr.func = clr;\n        up->clr.priv = priv;\n        if (ptr != NULL) {\n            cstl_guarded_ptr_set(&up->gp, ptr);\n        }"))
+M("c16-hash-resize-partial", "C16", "hash resize flips the clean bit even when the allocation failed",
+  (HS, "        if (count > h->bucket.capacity) {\n            __cstl_hash_set_capacity(h, count);\n        }", "        if (count > h->bucket.capacity) {\n            __cstl_hash_set_capacity(h, count);\n            if (count > h->bucket.capacity && h->bucket.at != NULL) { h->bucket.cst = !h->bucket.cst; }\n        }"))
+# ----------------------------------------------------------------- C20
+M("c20-shared-swap-raw", "C20", "shared_ptr_swap swaps raw fields",
+  (MH, "    cstl_guarded_ptr_swap(&sp1->data, &sp2->data);", "    void * const t = sp1->data.ptr;\n    sp1->data.ptr = sp2->data.ptr;\n    sp2->data.ptr = t;"))
+M("c20-unique-release-raw", "C20", "unique_ptr_release reads gp.ptr directly",
+  (MH, "    void * const p = cstl_unique_ptr_get(up);\n    if (clr != NULL) {", "    void * const p = up->gp.ptr;\n    if (clr != NULL) {"))
+M("c20-guarded-copy-self", "C20", "guarded_ptr_copy no longer checks its source",
+  (MH, "    cstl_guarded_ptr_set(dst, (void *)cstl_guarded_ptr_get_const(src));", "    cstl_guarded_ptr_set(dst, src->ptr);"))
+M("c20-null-not-checked", "C20", "the guard is skipped for NULL pointers",
+  (MH, "    if (gp->self != gp) {\n        abort();", "    if (gp->ptr != NULL && gp->self != gp) {\n        abort();"))
+M("c20-array-data-raw", "C20", "array data() reads the descriptor without the guard when the view is empty",
+  (AR, "    const struct cstl_raw_array * const ra =\n        cstl_shared_ptr_get_const(&a->ptr);\n    if (ra != NULL) {\n        return ra->buf;\n    }\n    return NULL;", "    const struct cstl_raw_array * ra;\n    if (a->len == 0 && a->ptr.data.ptr == NULL) {\n        return NULL;\n    }\n    ra = cstl_shared_ptr_get_const(&a->ptr);\n    if (ra != NULL) {\n        return ra->buf;\n    }\n    return NULL;"))
+M("c20-weak-reset-raw", "C20", "weak_ptr_reset reads the pointer field directly",
+  (MM, "void cstl_weak_ptr_reset(cstl_weak_ptr_t * const wp)\n{\n    struct cstl_shared_ptr_data * const data =\n        cstl_guarded_ptr_get(&wp->data);", "void cstl_weak_ptr_reset(cstl_weak_ptr_t * const wp)\n{\n    struct cstl_shared_ptr_data * const data = wp->data.ptr;"))
 # ----------------------------------------------------------------- C14
 AR = "src/array.c"
 M("c14-at-no-offset", "C14", "at ignores the view offset",
